@@ -1,7 +1,7 @@
 (* C03 property theorems. Statements closed by `exact lemma`, followed by Print Assumptions; Examples show that the
    hypotheses are satisfiable. *)
 From Coq Require Import NArith ZArith List Bool Lia.
-From OG Require Import C03.Model C03.Proofs C03.ColModel C03.ColProofs C03.ColLimModel C03.ColLimProofs C03.FaultModel C03.FaultProofs C03.MergeModel C03.MergeProofs.
+From OG Require Import C03.Model C03.Proofs C03.ColModel C03.ColProofs C03.ColLimModel C03.ColLimProofs C03.ColLimBound C03.FaultModel C03.FaultProofs C03.MergeModel C03.MergeProofs.
 Import ListNotations.
 
 (* Main theorem, for the whole family of protocols "log first, log removal last, any interleaving of renaming the
@@ -218,6 +218,12 @@ Theorem C03_split_files_concat : forall (A : Type) (nil : A) (maxRows limit : na
   concat (compact_col_lim nil maxRows limit srcs) = compact_col_actual nil maxRows srcs.
 Proof. exact (@compact_col_lim_correct). Qed.
 Print Assumptions C03_split_files_concat.
+
+(* and no output file holds more than max-segment-limit segments of the series (what the limit is for) *)
+Theorem C03_split_files_within_limit : forall (A : Type) (nil : A) (maxRows limit : nat),
+  0 < limit -> forall srcs : list (src A), Forall (fun f => length f <= limit) (compact_col_lim nil maxRows limit srcs).
+Proof. exact (@compact_col_lim_bound). Qed.
+Print Assumptions C03_split_files_within_limit.
 
 (* hence no cell of the series is lost, duplicated, reordered or shifted by the split *)
 Theorem C03_split_cells_exact : forall (A : Type) (nil : A) (maxRows limit : nat) (srcs : list (src A)),
